@@ -106,7 +106,7 @@ func (c *ChainIndex[T]) GetLastAcceptedHeight(_ context.Context) (uint64, error)
 	return database.ParseUInt64(lastAcceptedHeightBytes)
 }
 
-func (c *ChainIndex[T]) UpdateLastAccepted(ctx context.Context, blk T) error {
+func (c *ChainIndex[T]) UpdateLastAccepted(_ context.Context, blk T) error {
 	batch := c.db.NewBatch()
 
 	height := blk.GetHeight()
@@ -122,18 +122,28 @@ func (c *ChainIndex[T]) UpdateLastAccepted(ctx context.Context, blk T) error {
 		return batch.Write()
 	}
 
-	deleteBlkID, err := c.GetBlockIDAtHeight(ctx, expiryHeight)
-	if err != nil {
+	// Prune every non-genesis block at or below the expiry height. Normally this is exactly
+	// the block at expiryHeight, but after state sync, historical backfill or a window change
+	// that block may never have been stored and older blocks may still be around.
+	it := c.db.NewIteratorWithStartAndPrefix(prefixBlockHeightIDKey(1), []byte{blockHeightIDPrefix})
+	defer it.Release()
+	for it.Next() {
+		deleteHeight := extractBlockHeightFromKey(it.Key())
+		if deleteHeight > expiryHeight {
+			break
+		}
+		if err := errors.Join(
+			batch.Delete(prefixBlockKey(deleteHeight)),
+			batch.Delete(prefixBlockIDHeightKey(ids.ID(it.Value()))),
+			batch.Delete(prefixBlockHeightIDKey(deleteHeight)),
+		); err != nil {
+			return err
+		}
+		c.metrics.deletedBlocks.Inc()
+	}
+	if err := it.Error(); err != nil {
 		return err
 	}
-	if err = errors.Join(
-		batch.Delete(prefixBlockKey(expiryHeight)),
-		batch.Delete(prefixBlockIDHeightKey(deleteBlkID)),
-		batch.Delete(prefixBlockHeightIDKey(expiryHeight)),
-	); err != nil {
-		return err
-	}
-	c.metrics.deletedBlocks.Inc()
 
 	if expiryHeight%c.config.BlockCompactionFrequency == c.compactionOffset {
 		go func() {
